@@ -76,8 +76,10 @@ Target == Canon(cur)
 ChangedModels ==
     { mn \in DOMAIN cur : mn \in DOMAIN Sig0 /\ ~ModelEq(Sig0[mn], Target[mn]) }
     \cup { mn \in DOMAIN Sig0 : mn \notin DOMAIN cur }
+(* as repaired (d90e9c3): the new name of a renamed changed model counts as changed *)
+RenamedChanged(ms) == { ms[i].nm : i \in { j \in 1..Len(ms) : ms[j].k = "RenM" /\ ms[j].om \in ChangedModels } }
 Pending(ms) == SelectSeq(ms, LAMBDA mu : ~IsModelMutation(mu) \/ mu.k = "RenM"
-                                         \/ mu.m \in ChangedModels)
+                                         \/ mu.m \in ChangedModels \cup RenamedChanged(ms))
 
 (* what the real pipeline does with the perturbed evolution *)
 PRun == TwoPass(Pending(pert), Sig0)
